@@ -51,10 +51,11 @@ fn now_ms() -> usize {
 }
 
 fn start_watchdog() {
-    std::thread::spawn(|| loop {
+    let mut watch = CaseWatch::new();
+    std::thread::spawn(move || loop {
         std::thread::sleep(std::time::Duration::from_millis(250));
-        let started = CASE_STARTED_MS.load(Ordering::Relaxed);
-        if started != 0 && now_ms() > started + 10_000 {
+        // 20 s of CPU time (wall clock stretches when the machine is oversubscribed) or 300 s of wall clock
+        if watch.over(CASE_STARTED_MS.load(Ordering::Relaxed), now_ms(), 20_000, 300_000) {
             if let (Ok(dir), Ok(w), Ok(cur)) = (std::env::var("VERIF_WORKER_DIR"), std::env::var("VERIF_WORKER"), CURRENT.try_lock()) {
                 let i = w.split('/').next().unwrap_or("0").to_string();
                 let _ = std::fs::write(std::path::Path::new(&dir).join(format!("crash-{i}.json")), json!({"why": "timeout", "case": {"text": *cur}}).to_string());
@@ -425,7 +426,7 @@ pub fn repo_modules() -> Vec<String> {
     out
 }
 
-const RULE: &str = "valid texts (generator output of the front-end profile and the literal modules of /repo/tests, read as data) with 1..4 edits from {delete / duplicate / swap / insert / replace a token, delete / insert a character, truncate at a token or byte, replace a number by an over-long one, swap two numbers, replace a number by a boundary value (reversed ranges, bounds at type limits), open a block comment, make the module import from itself, put a non-ASCII character into a quoted literal, insert a well-formed snippet with a semantic trap (alias cycles incl. use with DEFAULT / OPTIONAL / in a list, recursive structures, cyclic value assignments, unknown names, duplicates)}, plus token soups over the ASN.1 vocabulary; pipeline: Tokenizer::parse -> Model::try_from -> try_resolve (and MultiModuleResolver, also with a twin module so that both import every symbol from each other) -> to_rust -> to_protobuf. Oracle: Ok or Err, no panic except the documented 'unclosed comment blocks' one when the input really has an unterminated '/*'; parse::Error::token(), when present, lies inside the input; a case running > 10 s stops the worker and is confirmed 3x in isolation. Non-trivial: the text tokenizes to >= 5 tokens and differs from the valid text it was derived from; distinct = hash of the text.";
+const RULE: &str = "valid texts (generator output of the front-end profile and the literal modules of /repo/tests, read as data) with 1..4 edits from {delete / duplicate / swap / insert / replace a token, delete / insert a character, truncate at a token or byte, replace a number by an over-long one, swap two numbers, replace a number by a boundary value (reversed ranges, bounds at type limits), open a block comment, make the module import from itself, put a non-ASCII character into a quoted literal, insert a well-formed snippet with a semantic trap (alias cycles incl. use with DEFAULT / OPTIONAL / in a list, recursive structures, cyclic value assignments, unknown names, duplicates)}, plus token soups over the ASN.1 vocabulary; pipeline: Tokenizer::parse -> Model::try_from -> try_resolve (and MultiModuleResolver, also with a twin module so that both import every symbol from each other) -> to_rust -> to_protobuf. Oracle: Ok or Err, no panic except the documented 'unclosed comment blocks' one when the input really has an unterminated '/*'; parse::Error::token(), when present, lies inside the input; a case using > 20 s of CPU time (or 300 s of wall clock) stops the worker and is confirmed 3x in isolation. Non-trivial: the text tokenizes to >= 5 tokens and differs from the valid text it was derived from; distinct = hash of the text.";
 
 pub fn run(ctx: Ctx) -> i32 {
     let report = Report::new(ctx.clone(), RULE);
@@ -537,7 +538,7 @@ pub fn run(ctx: Ctx) -> i32 {
                                     }
                                     break;
                                 }
-                                Ok(None) if t0.elapsed().as_secs() > 30 => {
+                                Ok(None) if t0.elapsed().as_secs() > 120 => {
                                     let _ = child.kill();
                                     let _ = child.wait();
                                     reproduced += 1;
@@ -553,7 +554,7 @@ pub fn run(ctx: Ctx) -> i32 {
                 if reproduced == 3 && died_by_signal {
                     report.fail("process-abort", &format!("the front end killed the process instead of returning Ok or Err (reproduced 3 times in isolation): {}", b.stderr_tail.lines().filter(|l| l.contains("overflow") || l.contains("abort") || l.contains("fatal")).collect::<Vec<_>>().join(" / ")), j["case"].clone());
                 } else if reproduced == 3 {
-                    report.fail("hang", "the front end did not terminate within 10 s (reproduced 3 times in isolation)", j["case"].clone());
+                    report.fail("hang", "the front end did not terminate within 20 s of CPU time (reproduced 3 times in isolation)", j["case"].clone());
                 } else if j["why"] == "in-flight" && reproduced == 0 {
                     // the worker died for a reason that the case in flight does not reproduce
                     dead_workers_are_infra(&report, std::slice::from_ref(b));
